@@ -532,7 +532,7 @@ def run_job_inner(job):
                 out["failures"].append({"site": "vhdlFile.__init__", "kind": "staleIndex", "detail": "index of a freshly parsed file: %s" % v, "input": desc()})
 
         S.sync_index(o.oTokenMap, cb0, force=True)
-        rng = random.Random("lk/%s/%s/%s" % (common.seed(), job.get("path"), job.get("variant")))
+        rng = random.Random("lk/%s/%s/%s" % (common.seed(), common.rel(job.get("path")), job.get("variant")))
         for wire, th in lookup_cases(o, ci, rng, job.get("nlookups", 60)):
             real = real_result(th)
             stats["lookups"] += 1
